@@ -22,12 +22,19 @@ def digests(pid, seed, runs, workers, tier, roundtrip=False):
     return out
 
 
+def run_indices(k):
+    """half of the indices from the start of the batch (where C11 / C15 enumerate systematically), half from beyond the
+    systematic parts (seeded histories with faults)"""
+    h = k // 2
+    return list(range(h)) + list(range(5000, 5000 + k - h))
+
+
 def main(a):
     from sim import core
     core.setup_process()
     if os.environ.get('SELFTEST_CHILD'):
         pid, k = os.environ['SELFTEST_CHILD'].split(':')
-        d = digests(pid, a.seed, list(range(int(k))), min(a.workers, 16), 'quick')
+        d = digests(pid, a.seed, run_indices(int(k)), min(a.workers, 16), 'quick')
         print('DIGESTS ' + json.dumps(d))
         return 0
     k = a.runs or (12 if a.tier == 'quick' else 120)
@@ -35,10 +42,10 @@ def main(a):
     bad = 0
     t0 = time.time()
     for pid in props:
-        runs = list(range(k))
+        runs = run_indices(k)
         d16 = digests(pid, a.seed, runs, min(a.workers, 16), 'quick')
         d16b = digests(pid, a.seed, list(reversed(runs)), min(a.workers, 16), 'quick', roundtrip=True)
-        d1 = digests(pid, a.seed, runs[:max(4, k // 4)], 1, 'quick')
+        d1 = digests(pid, a.seed, runs[::4][:max(4, k // 4)], 1, 'quick')
         env = dict(os.environ, VERIF_HASHSEED='1', SELFTEST_CHILD=f'{pid}:{k}')
         env.pop('PYTHONHASHSEED', None)
         cp = subprocess.run([sys.executable, os.path.join(core.VERIF, 'sim', 'cli.py'), 'selftest', '--seed', str(a.seed),
